@@ -52,6 +52,8 @@ def sqa_type(dtype: str):
         "str": sqa.String,
         "date": sqa.Date,
         "datetime": sqa.DateTime,
+        "datetime_ms": sqa.DateTime,
+        "datetime_ns": sqa.DateTime,
     }[dtype]
 
 
